@@ -559,6 +559,19 @@ func c03randCase(c *vf.Ctx, i int) {
 		if c.R.Bool() {
 			s = asciiUpper(s)
 		}
+		if rep%4 == 3 {
+			// substitution by characters OUTSIDE the alphabet (or of the other
+			// case): the statement quantifies over every substituted string
+			b := []byte(c03string(prefix, payload))
+			if c.R.Bool() {
+				b = []byte(asciiUpper(string(b)))
+			}
+			for _, p := range pos {
+				b[len(prefix)+1+p] = c03foreignFor(c.R, b[len(prefix)+1+p], false)
+			}
+			s = string(b)
+			c.Inc("blackbox_foreign_character_substitutions")
+		}
 		c.Evals(1)
 		if viaDecodeAddress {
 			var err error
@@ -577,6 +590,44 @@ func c03randCase(c *vf.Ctx, i int) {
 			c.Inc("blackbox_random_DecodeCashAddress")
 		}
 		c.Nontrivial(vf.HashString(s))
+	}
+}
+
+// c03foreignFor returns a byte different from orig that is not a symbol of
+// the same case: a character outside the base32 alphabet, the other case of an
+// alphabet letter, a control or high byte.  For bech32 the separator '1' is
+// excluded (it would move the separator and make a different, unrelated string).
+func c03foreignFor(r *vf.Rand, orig byte, bech32 bool) byte {
+	for {
+		var b byte
+		switch r.Intn(5) {
+		case 0:
+			b = "bioBIO"[r.Intn(6)]
+		case 1: // other case of an alphabet character
+			b = ref.CashCharset[r.Intn(32)]
+			if orig >= 'a' && orig <= 'z' || orig >= '0' && orig <= '9' {
+				b = asciiUpper(string([]byte{b}))[0]
+			}
+		case 2:
+			b = byte(r.Intn(33))
+		case 3:
+			b = byte(127 + r.Intn(129))
+		default:
+			const punct = "!\"#$%&'()*+,-./;<=>?@[\\]^_`{|}~ 1"
+			b = punct[r.Intn(len(punct))]
+		}
+		if b == orig || (bech32 && b == '1') || (!bech32 && b == ':') {
+			continue
+		}
+		if strings.IndexByte(ref.CashCharset, b) >= 0 {
+			// still an alphabet symbol of the same case: only acceptable as a
+			// "foreign" substitute when it changes the case of a letter
+			lowerOrig := orig >= 'a' && orig <= 'z'
+			if !(b >= 'a' && b <= 'z') || lowerOrig {
+				continue
+			}
+		}
+		return b
 	}
 }
 
@@ -948,6 +999,22 @@ func c03b32randCase(c *vf.Ctx, i int) {
 		if c.R.Bool() {
 			s = asciiUpper(s)
 		}
+		if rep%4 == 3 && desc == "" {
+			b := []byte(b32string(hrp, sym))
+			if c.R.Bool() {
+				b = []byte(asciiUpper(string(b)))
+			}
+			w = 1 + c.R.Intn(4)
+			if w > L {
+				w = L
+			}
+			for _, p := range c.R.Perm(L)[:w] {
+				b[len(hrp)+1+p] = c03foreignFor(c.R, b[len(hrp)+1+p], true)
+			}
+			s = string(b)
+			desc = " (characters outside the alphabet / of the other case)"
+			c.Inc("bech32_foreign_character_substitutions")
+		}
 		var err error
 		c.Evals(1)
 		c.Call("bech32.Decode", func() string { return s }, func() { _, _, err = bech32.Decode(s) })
@@ -965,7 +1032,7 @@ func init() {
 		Title: "Address checksums detect every corruption they are specified to detect",
 		Rule: "CashAddr: the implementation's syndrome map (31 unit errors x 112 positions) is measured through the verif hook and validated (independence of prefix/length/codeword, additivity) on every prefix x length; " +
 			"all weight-3 patterns are then probed against a table of all weight<=2 patterns on a 112-symbol window (meet in the middle; quick normalises the first error value to 1 after checking GF(32)-linearity of the measured map, thorough enumerates all 31^3 value triples), which covers every pattern of weight <= 5 for all eight standard lengths; " +
-			"black box: every weight-1 and weight-2 substitution on one codeword per length, seeded weight 1..5 substitutions through DecodeCashAddress and DecodeAddress on all nets, and near-miss patterns whose syndrome vanishes on a partial mask. " +
+			"black box: every weight-1 and weight-2 substitution on one codeword per length, seeded weight 1..5 substitutions (within the alphabet, and by characters outside it / of the other case) through DecodeCashAddress and DecodeAddress on all nets, and near-miss patterns whose syndrome vanishes on a partial mask. " +
 			"bech32: all weight<=2 patterns on an 88-symbol window are enumerated on the measured map (duplicates = undetected weight<=4), plus the same black-box families through bech32.Decode. " +
 			"distinct_nontrivial counts distinct enumeration slices, validated (prefix,length) combinations and distinct corrupted strings of the seeded streams.",
 		Assumptions: []string{
